@@ -560,6 +560,12 @@ func (s *stickyBalanceStrategy) reassignPartition(partition topicPartitionAssign
 	consumer := currentPartitionConsumer[partition]
 	// find the correct partition movement considering the stickiness requirement
 	partitionToBeMoved := s.movements.getTheActualPartitionToBeMoved(partition, consumer, newConsumer)
+	if holder := currentPartitionConsumer[partitionToBeMoved]; holder != consumer {
+		// partitionToBeMoved reverts an earlier move from newConsumer to holder, and partition itself came to consumer
+		// from holder: hand it back too, so that it is still consumer (and not holder) that ends up with one partition
+		// less. Otherwise the move can make the balance worse and performReassignments may never finish.
+		s.processPartitionMovement(partition, holder, currentAssignment, sortedCurrentSubscriptions, currentPartitionConsumer)
+	}
 	return s.processPartitionMovement(partitionToBeMoved, newConsumer, currentAssignment, sortedCurrentSubscriptions, currentPartitionConsumer)
 }
 
